@@ -5,7 +5,9 @@ EXTENDS Monitor, Json
 CONSTANTS P, KeepAlive, MaxRetries, Horizon, Walks, MaxEvents
 VARIABLES m, now, hist, w, lastRecv, unanswered
 Init == m = M0(0) /\ now = 0 /\ hist = <<>> /\ lastRecv = 0 /\ unanswered = 0 /\ w \in (IF Walks = 0 THEN {0} ELSE 1..Walks)
-Evs == {[e |-> "recv", g |-> 0], [e |-> "tick", g |-> 0]} \cup {[e |-> "pong", g |-> g] : g \in 1..(MaxRetries + 3)}
+\* "a message arrives": whatever it is - g is the kind the driver injects (0 NON request, 1 CON request, 2 ping = empty CON,
+\* 3 empty ACK nobody waits for, 4 RST nobody waits for, 5 response nobody waits for); the model does not distinguish them
+Evs == {[e |-> "recv", g |-> k] : k \in 0..5} \cup {[e |-> "tick", g |-> 0]} \cup {[e |-> "pong", g |-> g] : g \in 1..(MaxRetries + 3)}
 Guard(ev, d) == now + d <= Horizon /\ ~m.closed /\ (ev.e = "pong" => ev.g \in 1..m.gen)
 Pairs == {p \in Evs \X {0, 1, 2, 3, 5} : Guard(p[1], p[2])}
 Apply(ev, d) ==
